@@ -327,7 +327,7 @@ Definition token_key (t : str) : str := before 61 t.
 Lemma token_one (opts ro : amap str) t : ksorted ro -> (forall k, alookup k ro = alookup k opts) ->
   ok_token r t = true ->
   let opts' := match index_byte 61 t with
-               | Some j => if Nat.ltb j 1 || Nat.eqb (j + 1) (length t) then aset t [] opts
+               | Some j => if Nat.ltb j 1 then aset t [] opts
                            else aset (firstn j t) (skipn (j + 1) t) opts
                | None => aset t [] opts
                end in
@@ -336,15 +336,13 @@ Lemma token_one (opts ro : amap str) t : ksorted ro -> (forall k, alookup k ro =
   (forall k, k <> token_key t -> alookup k opts' = alookup k opts).
 Proof.
   intros Hs HL Hok. unfold ok_token in Hok. destruct t as [|b t]; [discriminate|].
-  apply andb_prop in Hok. destruct Hok as [Hok _]. apply andb_prop in Hok. destruct Hok as [Hb Hv].
+  apply andb_prop in Hok. destruct Hok as [Hb _].
   unfold token_key. destruct (memb 61 (b :: t)) eqn:Em.
   - destruct (index_byte_before_after 61 _ Em) as (j & Hj & Hbf & Haf & Hl). rewrite Hj.
     assert (Hj1 : Nat.ltb j 1 = false).
     { destruct j; [|reflexivity]. simpl in Hj. destruct (b =? 61) eqn:E; [|destruct (index_byte 61 t); discriminate].
       unfold is_alpha, is_upper, is_lower, is_digit in Hb. lia. }
-    assert (Hj2 : Nat.eqb (j + 1) (length (b :: t)) = false).
-    { apply PeanoNat.Nat.eqb_neq. intros Heq. rewrite Haf in Hv. rewrite Heq in Hv. rewrite skipn_all in Hv. discriminate. }
-    rewrite Hj1, Hj2. simpl orb. cbv iota. rewrite Hbf, Haf. split; [apply ksorted_sm_set, Hs|]. split.
+    rewrite Hj1. cbv iota. rewrite Hbf, Haf. split; [apply ksorted_sm_set, Hs|]. split.
     + intros k. rewrite alookup_sm_set by exact Hs. rewrite alookup_aset, HL. reflexivity.
     + intros k Hk. rewrite alookup_aset. apply streqb_neq in Hk. rewrite Hk. reflexivity.
   - rewrite (index_byte_none _ _ Em). rewrite (before_absent _ _ Em). split; [apply ksorted_sm_set, Hs|]. split.
@@ -366,7 +364,7 @@ Proof.
       destruct (token_one opts ro t Hs HL Hok1) as (Hs' & HL' & Hfr).
       cbn [isupport]. change (isupport_tokens opts (t :: t2 :: toks)) with
         (isupport_tokens (match index_byte 61 t with
-               | Some j => if Nat.ltb j 1 || Nat.eqb (j + 1) (length t) then aset t [] opts
+               | Some j => if Nat.ltb j 1 then aset t [] opts
                            else aset (firstn j t) (skipn (j + 1) t) opts
                | None => aset t [] opts
                end) (t2 :: toks)).
